@@ -18,6 +18,19 @@ import types
 Pickler = pickle._Pickler
 
 
+def _is_totally_ordered(obj):
+    """False for objects whose comparison is only a partial order.
+
+    Sets compare by inclusion: sorting a collection of (tuples of) sets does
+    not raise but the result depends on the initial order of the items.
+    """
+    if isinstance(obj, (set, frozenset)):
+        return False
+    if isinstance(obj, tuple):
+        return all(_is_totally_ordered(item) for item in obj)
+    return True
+
+
 class _ConsistentSet(object):
     """Class used to ensure the hash of Sets is preserved
     whatever the order of its items.
@@ -30,6 +43,8 @@ class _ConsistentSet(object):
             # consistent and orderable.
             # This fails on python 3 when elements are unorderable
             # but we keep it in a try as it's faster.
+            if not all(_is_totally_ordered(e) for e in set_sequence):
+                raise TypeError("partially ordered elements")
             self._sequence = sorted(set_sequence)
         except (TypeError, decimal.InvalidOperation):
             # If elements are unorderable, sorting them using their hash.
@@ -141,11 +156,14 @@ class Hasher(Pickler):
     # additional 'obj' argument in Python 3.14
     def _batch_setitems(self, items, *args):
         # forces order of keys in dict to ensure consistent hash.
+        items = list(items)
         try:
             # Trying first to compare dict assuming the type of keys is
             # consistent and orderable.
             # This fails on python 3 when keys are unorderable
             # but we keep it in a try as it's faster.
+            if not all(_is_totally_ordered(k) for k, _ in items):
+                raise TypeError("partially ordered keys")
             Pickler._batch_setitems(self, iter(sorted(items)), *args)
         except TypeError:
             # If keys are unorderable, sorting them using their hash. This is
